@@ -64,6 +64,16 @@ CHECKS = {
             "small shapes and the flag space, sampled above.",
             "Trusted: the reference interpreter (our reading of the statement). Siblings inside the emitter's/consumer's own group: only 'at most once'.",
             "DESIGN.md 4/C18"),
+    "C19": ("fault_enumeration",
+            "runtime monitor: field-wise equality oracle over save/load executions (formats x write routes x load paths x field subsets) + crash injection (os._exit in forked children at every line/open/chunk/close/rename boundary of a save) judged after reopen",
+            "Round trips: all subsets of size <=2 and >=13 of the 15 optional fields plus random subsets, generated values "
+            "(arbitrary unicode for JSON, comment-free text for key=value, random keys/blobs), written by save(profile), "
+            "save(dest=), config_to_str+file and YowProfile.write_config, loaded by path with/without extension and by profile "
+            "name, profile directory existing or not. Crash points: every Python line of the save path, the file open, every "
+            "7-byte chunk reaching the OS, close and rename are enumerated completely for each sampled save; a forked child is "
+            "killed there and the parent requires load() to return the previous or the new configuration.",
+            "Trusted: os.rename atomicity and the filesystem; process death only (no power loss). Saves to enumerate are sampled, their crash points are complete.",
+            "DESIGN.md 4/C19"),
 }
 
 NOT_BUILT = "check not built yet in this session (planned, see DESIGN.md section 4)"
